@@ -3,9 +3,19 @@
     [rateLimiter.check] and the address argument of [newCookie] in handleLogin
     are one variable, assigned once, from [netutil.SplitHost(r.RemoteAddr)];
     newCookie passes its address parameter, unchanged, to [inc] and
-    [remove]. *)
+    [remove].  Sessions (auth.go): [checkSession] indexes [Auth.sessions] with,
+    deletes, and hex-decodes its string parameter, never reassigned;
+    [removeSession] deletes its string parameter from the map and passes
+    [key, _ := hex.DecodeString(<that parameter>)] to [removeSessionFromFile];
+    optionalAuth, optionalAuthThird and handleLogout pass [<cookie>.Value] of
+    [r.Cookie(sessionCookieName)] unchanged.  These are the choices
+    Model/Session.v makes in [check_session], [logout], [logout_request]. *)
 From AGH Require Import Base.Run Model.RateLimit Gen.AuthPins.
 
 Lemma limiter_keys_are_peer :
   login_check_key = Some UsePeer /\ login_count_key = Some UsePeer.
 Proof. vm_compute. split; reflexivity. Qed.
+
+Lemma session_keys_as_modelled :
+  session_check_as_sent && session_remove_as_sent && session_remove_decodes && session_cookie_value = true.
+Proof. vm_compute. reflexivity. Qed.
